@@ -1,3 +1,37 @@
-From CandidV Require Import model.Coerce.
-Theorem C02_placeholder : True. Proof. exact I. Qed.
-Print Assumptions C02_placeholder.
+(* C02 -- Decoding at an expected type is exactly the specification's coercion.
+   [spec_decode] (model/Coerce.v) is the "independent decoder written from the specification": header grammar with its
+   validation rules, M^-1 at the wire types, the coercion relation as a function, the argument-sequence rule.
+   The implementation's fused decode-and-coerce (IDLArgs::from_bytes_with_types / from_bytes, binary_parser::Header)
+   is compared with it by the correspondence run; the theorems below are the meta-theory that makes it the right oracle. *)
+From Coq Require Import List NArith ZArith.
+From CandidV Require Import model.Coerce proofs.WireProofs proofs.CoerceProofs.
+Open Scope N_scope.
+
+(* the value decoder inverts the spec's value encoding M at every type: for every well-typed value, any trailing input *)
+Theorem C02_value_decoder_inverts_M : forall v E t out f rest,
+  has_type E v t = true -> enc_val E v t = Some out -> (vdepth v < f)%nat ->
+  dec_val f E t (out ++ rest) = Ok (v, rest).
+Proof. exact dec_enc_val. Qed.
+
+(* well-typedness of coercion (spec, Properties):  v : t ~> v' : t'  implies  v' : t'.
+   [good] also says that a well-typed value never makes the coercion function go wrong: the only outcomes are
+   a value of the expected type, "no coercion" (which an enclosing opt turns into null) or fuel exhaustion. *)
+Theorem C02_coerce_welltyped : forall E, wf_env E = true -> forall f v t t',
+  ty_closed E t' = true -> has_type E v t = true -> good E t' (coerce f E v t t').
+Proof. exact coerce_typed. Qed.
+
+(* round-tripping (spec, Properties): coercing at the same type never fails *)
+Theorem C02_coerce_same_type : forall E, wf_env E = true -> forall f v t t' a,
+  trace E t = Some a -> trace E t' = Some a -> ty_closed E a = true -> has_type E v t = true -> okf (coerce f E v t t').
+Proof. exact coerce_same. Qed.
+
+Example C02_ex_opt_backtracking :   (* opt record {0:nat} read at opt record {0:text}: failed coercion under opt yields null *)
+  coerce 10 [] (VOpt (Some (VRec [(0, VNat 5)]))) (TOpt (TRec [(0, TPrim PNat)])) (TOpt (TRec [(0, TPrim PText)])) = Ok (VOpt None).
+Proof. vm_compute. reflexivity. Qed.
+Example C02_ex_decode :             (* DIDL, no table, one nat argument 5, read at (int, opt text): nat reads at int, missing opt reads as null *)
+  spec_decode [] [TPrim PInt; TOpt (TPrim PText)] [68;73;68;76;0;1;125;5] = Ok [VInt 5; VOpt None].
+Proof. vm_compute. reflexivity. Qed.
+
+Print Assumptions C02_value_decoder_inverts_M.
+Print Assumptions C02_coerce_welltyped.
+Print Assumptions C02_coerce_same_type.
